@@ -188,17 +188,21 @@ class Model(object):
         return [self._ignore('start ignored outside Idle')]
 
     def open_problem(self, ver, asn, hold, malformed=False, unsup_opt=False):
+        """the problems of a peer OPEN, as a list of (code, sub-code): RFC 4271 6.2 names the answer to each and no order of
+        precedence, so an OPEN with several is answered with ONE NOTIFICATION for any one of them.  An unsupported version
+        comes first (nothing else of such a message can be relied on)."""
         if ver != 4:
-            return (2, 1)
+            return [(2, 1)]
+        out = []
         if unsup_opt:
-            return (2, 4)       # an optional parameter that is not recognized (RFC 4271 6.2)
+            out.append((2, 4))       # an optional parameter that is not recognized (RFC 4271 6.2)
         if malformed:
-            return (2, 0)       # recognized optional parameter, malformed (RFC 4271 6.2)
+            out.append((2, 0))       # recognized optional parameter, malformed (RFC 4271 6.2)
         if asn != self.remote_as:
-            return (2, 2)
+            out.append((2, 2))
         if hold in (1, 2):
-            return (2, 6)
-        return None
+            out.append((2, 6))
+        return out
 
     def ev_msg(self, meta):
         s = self.st
@@ -216,7 +220,7 @@ class Model(object):
             bad = self.open_problem(meta['ver'], meta['asn'], meta['hold'], meta.get('malformed', False), meta.get('unsup_opt', False))
             if s == OPENSENT:
                 if bad:
-                    return [self._err(bad[0], bad[1])]
+                    return [self._err(b[0], b[1]) for b in bad]
                 H = min(self.cfg_hold, meta['hold'])
 
                 def ap():
@@ -225,12 +229,12 @@ class Model(object):
                 return [Alt([(4,)], False, 0, ap, 'OPEN accepted')]
             if s == OPENCONFIRM:
                 if bad:
-                    return [self._ignore(), self._err(bad[0], bad[1])]
+                    return [self._ignore()] + [self._err(b[0], b[1]) for b in bad]
                 return [self._ignore('OPEN in OpenConfirm, no collision possible')]
             if s == ESTABLISHED:
                 alts = [self._err(5, ANY)]
                 if bad:
-                    alts.append(self._err(bad[0], bad[1]))
+                    alts += [self._err(b[0], b[1]) for b in bad]
                 else:
                     alts.append(self._ignore())
                 return alts
